@@ -3,7 +3,7 @@
 From Dawn Require Import Diff.Model Diff.Spec Diff.Proofs_Basic Diff.Proofs_Record Diff.Proofs_Search
      Diff.Proofs_Seq Diff.Proofs_Rounds Diff.Proofs_Value Diff.Proofs_Reason
      Diff.SpecCost Diff.SpecGraph Diff.Proofs_Total Diff.Proofs_Min Diff.Proofs_Opt Diff.Proofs_Short Diff.Sched Diff.Proofs_Sched
-     Diff.ModelEnv Diff.Proofs_EnvParts.
+     Diff.ModelEnv Diff.Proofs_EnvParts Diff.Proofs_Sides.
 Open Scope Z_scope.
 
 (** The diff of two values is empty exactly when they are equal (EqualDepth at the same depth says true). *)
@@ -90,6 +90,52 @@ Theorem seq_replacements_carry_sides_refuted :
     diff route_size a b = Ok (Some (DSlice a b edits)) /\ In (SRepl ds) edits /\ In None ds.
 Proof. exact replace_none_exists. Qed.
 Print Assumptions seq_replacements_carry_sides_refuted.
+
+(** What IS true: when the route table is not exhausted, no replace edit pairs two elements that the comparison of
+    the edit graph search reports equal (it compares an element of the shorter sequence with one of the longer
+    one, hence the orientation), and the two elements are elements of the old and of the new sequence.  Otherwise
+    the script would not be a shortest one (script_is_shortest): delete what precedes the pair, insert what
+    precedes it, KEEP the pair, and go on -- two elements cheaper.  "Equal" is the comparison's notion, not "same
+    type": an int and the float of the same value are such a pair. *)
+Theorem replace_entries_pair_unequal_elements :
+  forall (A : Type) (eqv : A -> A -> option bool) route_size a b script e i x y,
+  diff_slice A eqv route_size a b = Ok script ->
+  exhausted A eqv route_size a b = Ok false ->
+  In e script -> ek e = KReplace ->
+  nth_error (eold e) i = Some x -> nth_error (enew e) i = Some y ->
+  In x a /\ In y b /\
+  (if zlen A a >=? zlen A b then eqv y x else eqv x y) <> Some true.
+Proof. exact replace_pairs_unequal_lemma. Qed.
+Print Assumptions replace_entries_pair_unequal_elements.
+
+(** Hence every entry of a replace payload carries its two sides (is a diff, never None) -- PROVIDED the comparison
+    by which diffReplacements decides that a pair needs no diff (DiffDepth's EqualDepth, at the depth of the
+    elements) never says "equal" where the search's comparison (EqualDepth at depth 1000, shorter sequence's
+    element first) does not.  The stages of the diff each compare on their own; this is the statement of what
+    goes wrong when one of them uses another notion of equality (say, "values of different types are unequal"
+    in the search only: then 1 and 1.0 are deleted and added, merged into a replacement, and rendered as None). *)
+Theorem seq_replacements_carry_sides : forall route_size d a b ca ea cb eb edits,
+  sliceable a = Some (ca, ea) -> sliceable b = Some (cb, eb) ->
+  diff_depth route_size (S d) a b = Ok (Some (DSlice a b edits)) ->
+  exhausted value (veq_d depth1000) route_size ea eb = Ok false ->
+  (forall o n, In o ea -> In n eb -> veq_d d o n = Some true ->
+     (if zlen value ea >=? zlen value eb then veq_d depth1000 n o else veq_d depth1000 o n) = Some true) ->
+  forall ds, In (SRepl ds) edits -> ~ In None ds.
+Proof. exact seq_replacements_carry_sides_lemma. Qed.
+Print Assumptions seq_replacements_carry_sides.
+
+(** The proviso holds outright for sequences of scalars -- None, booleans, ints, floats, strings, bytes: there
+    EqualDepth does not depend on the depth and is symmetric, across types too (1 == 1.0 both ways round).  So in
+    the diff of two sequences of constants no element ever vanishes into a None entry, whatever the types of the
+    numbers in them. *)
+Theorem seq_of_scalars_replacements_carry_sides : forall route_size d a b ca ea cb eb edits,
+  sliceable a = Some (ca, ea) -> sliceable b = Some (cb, eb) ->
+  diff_depth route_size (S d) a b = Ok (Some (DSlice a b edits)) ->
+  exhausted value (veq_d depth1000) route_size ea eb = Ok false ->
+  forallb scalar ea = true -> forallb scalar eb = true ->
+  forall ds, In (SRepl ds) edits -> ~ In None ds.
+Proof. exact scalars_carry_sides_lemma. Qed.
+Print Assumptions seq_of_scalars_replacements_carry_sides.
 
 (** For mappings there is an edit exactly for each key added, removed or changed, of the right kind and
     carrying the right values ... *)
@@ -403,3 +449,19 @@ Example ex_sched :
   map ts_out (run_private hs [0; 0; 1; 0; 1; 0; 0; 0; 1; 0; 0; 0; 0]%nat) =
     [Some (s_constant_values ++ s_changed); None].
 Proof. vm_compute. reflexivity. Qed.
+
+(** numbers: equal without being of one type (1 == 1.0, 0 == -0.0, NaN == NaN), alike without being equal (True, 1);
+    an int and the equal float are KEPT by the diff of two tuples, not replaced; one key for a dict *)
+Example ex_numbers :
+  let one := VFloat (FHalf 2) in
+  veq_d 10 (VInt 1) one = Some true /\ veq_d 10 one (VInt 1) = Some true /\
+  veq_d 10 (VInt 0) (VFloat FNegZero) = Some true /\ veq_d 10 (VFloat FNaN) (VFloat FNaN) = Some true /\
+  veq_d 10 (VBool true) (VInt 1) = Some false /\ veq_d 10 (VFloat (FHalf 1)) (VInt 0) = Some false /\
+  diff 2000000 (VTuple [VInt 1; VStr [97%N]]) (VTuple [one; VStr [98%N]]) =
+    Ok (Some (DSlice (VTuple [VInt 1; VStr [97%N]]) (VTuple [one; VStr [98%N]])
+                [SE KCommon (VTuple [VInt 1]);
+                 SRepl [Some (DSlice (VStr [97%N]) (VStr [98%N]) [SRepl [Some (DLit (VStr [97%N]) (VStr [98%N]))]])]])) /\
+  diff 2000000 (VDict [(VInt 1, VInt 1)]) (VDict [(one, one)]) = Ok None /\
+  diff 2000000 (VDict [(VInt 1, VInt 1)]) (VDict [(one, VInt 2)]) =
+    Ok (Some (DMap (VDict [(VInt 1, VInt 1)]) (VDict [(one, VInt 2)]) [(VInt 1, MRepl (DLit (VInt 1) (VInt 2)))])).
+Proof. vm_compute. repeat split; reflexivity. Qed.
